@@ -514,9 +514,36 @@ fn digest(a: &[String]) -> ! {
     std::process::exit(0)
 }
 
+/// `cmpseq <tuple|list> <a1,a2,..|-> <b1,b2,..|->`: OwnedTerm::cmp (and BorrowedTerm::cmp) on two containers of integers against
+/// Erlang's order written out directly (tuples: size first; lists: element-wise, then length)
+fn cmpseq(a: &[String]) -> ! {
+    use erltf::OwnedTerm as T;
+    use std::cmp::Ordering;
+    let ints = |s: &str| -> Vec<i64> { if s == "-" { vec![] } else { s.split(',').map(|x| x.parse().unwrap()).collect() } };
+    let (xs, ys) = (ints(&a[3]), ints(&a[4]));
+    let mk = |v: &Vec<i64>| {
+        let e: Vec<T> = v.iter().map(|i| T::Integer(*i)).collect();
+        if a[2] == "tuple" { T::Tuple(e) } else { T::List(e) }
+    };
+    let lex = xs.iter().zip(ys.iter()).map(|(p, q)| p.cmp(q)).find(|o| *o != Ordering::Equal);
+    let want = if a[2] == "tuple" && xs.len() != ys.len() { xs.len().cmp(&ys.len()) } else { lex.unwrap_or(xs.len().cmp(&ys.len())) };
+    let (ta, tb) = (mk(&xs), mk(&ys));
+    let got = ta.cmp(&tb);
+    let gotb = erltf::BorrowedTerm::from(&ta).cmp(&erltf::BorrowedTerm::from(&tb));
+    if got != want || gotb != want {
+        eprintln!("REPLAY: {}{:?} vs {}{:?}: OwnedTerm::cmp = {:?}, BorrowedTerm::cmp = {:?}, Erlang order = {:?}", a[2], xs, a[2], ys, got, gotb, want);
+        std::process::exit(101);
+    }
+    println!("REPLAY: cmp agrees with Erlang's order ({:?})", want);
+    std::process::exit(0)
+}
+
 fn main() {
     let a: Vec<String> = std::env::args().collect();
     let kind = a[1].as_str();
+    if kind == "cmpseq" {
+        cmpseq(&a);
+    }
     if kind == "digest" {
         digest(&a);
     }
